@@ -48,7 +48,8 @@ def install(it):
     it.models[id(calendar.timegm)] = ModelFn("calendar.timegm", m_timegm)
     from timeit import default_timer
 
-    it.models[id(default_timer)] = ModelFn("timer", m_time)
+    # the elapsed-time debug branch of run_job is dropped (DESIGN section 4): timer() is constant
+    it.models[id(default_timer)] = ModelFn("timer", lambda it2, a, k: 0.0)
     from . import contract
 
     contract.install_vocabulary(it)
